@@ -241,7 +241,7 @@ func c06Positive(k *fw.K, cfg c06Cfg, idx int) {
 	k.Sample("positive", map[string]any{"config": cfg.String(), "shared_secret": fmt.Sprintf("%x", ca.K)})
 }
 
-var c06Strategies = []string{"old-session-keys", "unprotected-9000", "unprotected-6a82", "random-mac", "replay-earlier-9000", "keys-from-random-secret", "keys-from-other-point", "keys-from-terminal-key-x", "protected-6a82-fake-keys", "protected-6283-fake-keys", "refuse"}
+var c06Strategies = []string{"empty-mac", "truncated-mac", "zero-mac", "old-session-keys", "unprotected-9000", "unprotected-6a82", "random-mac", "replay-earlier-9000", "keys-from-random-secret", "keys-from-other-point", "keys-from-terminal-key-x", "protected-6a82-fake-keys", "protected-6283-fake-keys", "refuse"}
 
 func c06Impostor(k *fw.K, cfg c06Cfg, idx int) {
 	w := c06NewWorld(k, cfg, nil)
@@ -303,6 +303,12 @@ func c06Impostor(k *fw.K, cfg c06Cfg, idx int) {
 			return []byte{0x90, 0x00}
 		case "unprotected-6a82":
 			return []byte{0x6A, 0x82}
+		case "empty-mac":
+			return []byte{0x99, 0x02, 0x90, 0x00, 0x8E, 0x00, 0x90, 0x00}
+		case "truncated-mac":
+			return append(append([]byte{0x99, 0x02, 0x90, 0x00, 0x8E, 0x04}, randBytes(r, 4)...), 0x90, 0x00)
+		case "zero-mac":
+			return append(append([]byte{0x99, 0x02, 0x90, 0x00, 0x8E, 0x08}, make([]byte, 8)...), 0x90, 0x00)
 		case "random-mac":
 			return append(append([]byte{0x99, 0x02, 0x90, 0x00, 0x8E, 0x08}, randBytes(r, 8)...), 0x90, 0x00)
 		case "replay-earlier-9000":
